@@ -51,4 +51,90 @@ def conforms (S : Schema) : Bool → TypeRef → J → Bool
     | .null => nullable
     | _ => leafOk S n j
 
+
+/-! ### Responses for selection sets (CollectFields + CompleteValue) -/
+
+/-- one entry of CollectFields: response key, field name, the merged sub-selections, and whether
+    every occurrence is conditional (`@skip`/`@include` on the field or on an enclosing fragment) -/
+structure Collected where
+  key : String
+  name : String
+  subs : List Selection
+  conditional : Bool
+  deriving Repr
+
+def isConditional (dirs : List Directive) : Bool :=
+  dirs.any fun d => d.name == Tables.includeDirectiveName || d.name == Tables.skipDirectiveName
+
+/-- does a fragment with type condition `cond` apply to an object of runtime type `rt`? -/
+def applies (S : Schema) (cond : Option String) (rt : String) : Bool :=
+  match cond with
+  | none => true
+  | some c => c == rt || (S.possibleTypes c).contains rt
+
+def addCollected (acc : List Collected) (c : Collected) : List Collected :=
+  if acc.any (·.key == c.key) then
+    acc.map fun x => if x.key == c.key then { x with subs := x.subs ++ c.subs, conditional := x.conditional && c.conditional } else x
+  else acc ++ [c]
+
+/-- CollectFields for an object of runtime type `rt`; `cond` = we are inside a conditional fragment -/
+def collect (S : Schema) (frags : List Fragment) : Nat → String → Bool → List Selection → List Collected → List Collected
+  | 0, _, _, _, acc => acc
+  | fuel + 1, rt, cond, sels, acc =>
+    sels.foldl (fun acc s =>
+      match s with
+      | .field alias name dirs _ sub =>
+        addCollected acc { key := alias.getD name, name := name, subs := sub, conditional := cond || isConditional dirs }
+      | .inline on dirs _ sub =>
+        if applies S on rt then collect S frags fuel rt (cond || isConditional dirs) sub acc else acc
+      | .spread n dirs =>
+        match findFragment? frags n with
+        | some f => if applies S (some f.on) rt then collect S frags fuel rt (cond || isConditional dirs) f.sel acc else acc
+        | none => acc) acc
+
+/-- the object types a value of (named) type `n` can have at run time -/
+def runtimeTypes (S : Schema) (n : String) : List String :=
+  match S.kindOf? n with
+  | some .object => [n]
+  | some .interface => S.possibleTypes n
+  | some .union => S.possibleTypes n
+  | _ => []
+
+/-- CompleteValue over the list / non-null wrappers; `leafOrObj n v` judges a non-null value of the named type -/
+def complete (leafOrObj : String → J → Bool) : TypeRef → Bool → J → Bool
+  | .nonNull t, _, v => complete leafOrObj t false v
+  | .list t, nullable, v =>
+    match v with
+    | .null => nullable
+    | .arr xs => xs.all (complete leafOrObj t true)
+    | _ => false
+  | .named n, nullable, v =>
+    match v with
+    | .null => nullable
+    | _ => leafOrObj n v
+
+/-- Is `j` an object a conformant executor can return for the selection set `sels` evaluated on an
+    object of runtime type `rt`?  (key order is not checked: JSON objects are unordered) -/
+def respOK (S : Schema) (frags : List Fragment) : Nat → String → List Selection → J → Bool
+  | 0, _, _, _ => false
+  | fuel + 1, rt, sels, j =>
+    match j with
+    | .obj kvs =>
+      let groups := collect S frags (fuel + 1) rt false sels []
+      -- nothing but the collected keys
+      kvs.all (fun (k, _) => groups.any (·.key == k))
+      -- every collected key: present with a conformant value, or absent if conditional
+      && groups.all (fun g =>
+        match J.lookup g.key kvs with
+        | none => g.conditional
+        | some v =>
+          if g.name == Tables.typenameFieldName then (match v with | .str s => s == rt | _ => false)
+          else match S.fieldOf? rt g.name with
+            | none => false
+            | some fd =>
+              complete (fun n v =>
+                if g.subs.isEmpty then leafOk S n v
+                else (runtimeTypes S n).any fun rt' => respOK S frags fuel rt' g.subs v) fd.type true v)
+    | _ => false
+
 end Ariadne.Exec
